@@ -280,6 +280,54 @@ def _failures(stage: int, m: int, cfg: int, ext: int, ast: bool = False, own_pat
     return result(problem == "", True)
 
 
+# ---------------------------------------------------------------- operation selection as a product (spec 6.1 GetOperation)
+A1, ST = {"a": 1}, {"s": "t"}
+OPSEL_DOCS = (          # (document, [(operation name, the data executing it gives)] in document order)
+    ("{ a }", ((None, A1),)), ("query { a }", ((None, A1),)), ("query A { a }", (("A", A1),)), ("mutation { a }", ((None, A1),)), ("mutation A { a }", (("A", A1),)),
+    ("query A { a } query B { s }", (("A", A1), ("B", ST))), ("query A { a } mutation B { s }", (("A", A1), ("B", ST))), ("query B { s } query A { a }", (("B", ST), ("A", A1))),
+    ("query a { a }", (("a", A1),)), ("query A { a } query a { s }", (("A", A1), ("a", ST))),
+)
+OPSEL_NAMES = (None, "", "A", "B", "C", "a", "query", "__typename")
+
+
+def _operation_selection(d: int, n: int, cfg: int, ast: bool) -> bool:
+    """
+    pre: 0 <= d < len(OPSEL_DOCS) and 0 <= n < len(OPSEL_NAMES) and 0 <= cfg <= 1
+    post: _
+    """
+    (text, ops), NAME, C = pick(d, OPSEL_DOCS), pick(n, OPSEL_NAMES), concrete_int(cfg, 0, 1)
+    names = [k for k, _ in ops]
+    AST = True if ast else False
+    with untraced():
+        schema = failure_schema("<mutation root>", None)
+        document = parse(text) if AST else text
+        kw = dict(operation_name=NAME, root={"a": 1, "s": "t"})
+        if C == 0:
+            res = graphql_blocking(schema, document, **kw)               # any exception propagates: the entry point must answer with a result
+        else:
+            res = process_graphql_query(schema, document, executor_cls=Executor, **kw)
+        resp = res.response()
+        # spec 6.1: no name -> the document's only operation (else a request error); a name -> the operation of that name (else a request error)
+        if NAME is None:
+            chosen = names[0] if len(names) == 1 else "<error>"
+        elif NAME == "":
+            chosen = "<either>"          # an empty string is what HTTP front ends send for 'no name': absent or unknown, both are answers
+        else:
+            chosen = NAME if NAME in names else "<error>"
+        problem = check_response(resp, text, None)
+        if not problem:
+            if chosen == "<either>":
+                pass
+            elif chosen == "<error>":
+                if "errors" not in resp or resp.get("data") is not None:
+                    problem = "an operation was executed although none is selected by %r: %r" % (NAME, resp)
+            else:
+                exp = dict(ops)[chosen]
+                if "errors" in resp or resp.get("data") != exp:
+                    problem = "operation %r selected by %r: expected %r, got %r" % (chosen, NAME, exp, resp)
+    return result(problem == "", NAME is not None)
+
+
 RENDER_N = 4 if thorough() else 3
 
 
@@ -329,6 +377,14 @@ def _solve_line_separator(tier):
 
 
 CONDITIONS = [
+    Cond(
+        name="operation_selection", fn=_operation_selection, quick=60, thorough=60,
+        bound="GetOperation as a product: 10 documents (anonymous / named, query / mutation, one or two operations, names differing in case only) x 8 operation names (absent, empty, matching, unknown, "
+              "another case, a keyword, a meta-field name) x 2 entry points x text / parsed document: the response is well-formed; the named (or the only) operation is executed, every other combination is a request "
+              "error without data - never an exception",
+        symbolic={"d,n,cfg,ast": "choice"}, assumptions=["oracle: spec 6.1 GetOperation; the empty string may count as absent or as an unknown name"],
+        witness={"d": 0, "n": 2, "cfg": 0, "ast": False},
+    ),
     Cond(
         name="truncations", fn=_truncations, quick=200, thorough=1200, per_path=60, shards_quick=8, shards_thorough=2 * len(G.TEMPLATES),
         bound="%d request templates cut at EVERY position, followed by 0..2 characters from a %d-character set of lexer-relevant characters (quick: first 8 templates, second character only after a backslash)" % (len(G.TEMPLATES), len(SUFFIX_CHARS)),
